@@ -1,6 +1,6 @@
 """Self-test driver for C07: apply each property-breaking edit to a scratch worktree, run the quick check.
 
-    /venv/bin/python /verif/selftest/C07/driver.py [/tmp/wt-c07] [--jobs N] [--suite]
+    /venv/bin/python /verif/selftest/C07/driver.py [/tmp/wt-c07] [--jobs N] [--suite] [--only a,b]
 
 Expects the worktree to exist (`git -C /repo worktree add --detach /tmp/wt-c07 HEAD`) and to be clean.
 Writes results.json next to this file.  --suite also runs the repository tests of the touched area
@@ -22,6 +22,9 @@ AREA = {
     "client-retry-from-send-time": "client",
     "token-bucket-zero-wait-guard": "policy or rate_limit or token",
     "conveyor-arrival-stamp-before-transit": "conveyor",
+    "split-merge-stamp-hoisted": "split_merge or industrial",
+    "batch-processor-stamp-at-batch-start": "batch_processor or industrial",
+    "api-gateway-forward-with-request-time": "gateway or microservice",
 }
 
 
@@ -32,8 +35,17 @@ def main():
     if "--jobs" in sys.argv:
         jobs = sys.argv[sys.argv.index("--jobs") + 1]
     results = []
+    only = None
+    if "--only" in sys.argv:  # re-run a subset; other entries of results.json are kept
+        only = set(sys.argv[sys.argv.index("--only") + 1].split(","))
+        try:
+            results = [r for r in json.load(open(os.path.join(HERE, "results.json"))) if r["patch"][:-5] not in only]
+        except OSError:
+            results = []
     for patch in sorted(glob.glob(os.path.join(HERE, "*.diff"))):
         name = os.path.basename(patch)[:-5]
+        if only is not None and name not in only:
+            continue
         subprocess.run(["git", "-C", wt, "checkout", "--", "."], check=True)
         subprocess.run(["git", "-C", wt, "apply", patch], check=True)
         suite = None
@@ -76,6 +88,7 @@ def main():
         print(json.dumps(results[-1]))
         sys.stdout.flush()
         subprocess.run(["git", "-C", wt, "checkout", "--", "."], check=True)
+    results.sort(key=lambda r: r["patch"])
     json.dump(results, open(os.path.join(HERE, "results.json"), "w"), indent=1)
 
 
